@@ -83,7 +83,15 @@ type EnvConfig struct {
 	// ChangesBeforeCreation are gas schedule changes the factory receives after its construction
 	// and before it creates the function container
 	ChangesBeforeCreation []Schedule
+	// PayableHandlerTwice wires the container first with a permissive payability oracle, then with
+	// the real one (the later handler is the one in force)
+	PayableHandlerTwice bool
 }
+
+type alwaysPayable struct{}
+
+func (alwaysPayable) IsPayable([]byte) (bool, error) { return true, nil }
+func (alwaysPayable) IsInterfaceNil() bool           { return false }
 
 // ShardEnv is the real factory + container of one shard, bound to the Env's current execution.
 type ShardEnv struct {
@@ -111,6 +119,8 @@ type Env struct {
 	depCount int
 	Trace    []Dep
 	KeepDeps bool
+	// DNSMap is the very map handed to the factory (an application may edit its own map later)
+	DNSMap map[string]struct{}
 
 	// scheduling hook (E4): called at every dependency call
 	Point func(kind string)
@@ -161,6 +171,7 @@ func NewEnv(cfg EnvConfig) (*Env, error) {
 	for _, d := range cfg.DNS {
 		dns[string(d)] = struct{}{}
 	}
+	e.DNSMap = dns
 	for i := 0; i < cfg.NumShards; i++ {
 		se := &ShardEnv{ID: uint32(i), notifier: &Notifier{}}
 		se.coord = &coordinator{env: e, self: uint32(i)}
@@ -186,6 +197,12 @@ func NewEnv(cfg EnvConfig) (*Env, error) {
 			return nil, err
 		}
 		if !cfg.NoPayableHandler {
+			if cfg.PayableHandlerTwice {
+				// the container is wired a first time with an oracle that calls everything payable
+				if err = builtInFunctions.SetPayableHandler(c, alwaysPayable{}); err != nil {
+					return nil, err
+				}
+			}
 			err = builtInFunctions.SetPayableHandler(c, &payable{env: e, shard: uint32(i)})
 			if err != nil {
 				return nil, err
